@@ -4,6 +4,7 @@ Theorems over the model `Uquic.Model.Sent` (internal/ackhandler sent-packet hand
 -/
 import Uquic.Proofs.SentLedger
 import Uquic.Proofs.SentFlight
+import Uquic.Proofs.SentAcked
 
 namespace Uquic.Props.C06
 open Uquic.Model.Sent Uquic.Proofs.Sent List
@@ -128,5 +129,162 @@ theorem accounting_panics_unreachable (pn : PN) (val client : Bool) (nts : PN) (
     ((State.new pn val client nts).run ops).res ≠ .panic .negativeOutstanding ∧
     ((State.new pn val client nts).run ops).res ≠ .panic .cleanupFailed :=
   (flight_run ops _ (new_FInv pn val client nts) hv).2
+
+/-! ### ack_of_unsent, ack_of_skipped -/
+
+/-- **ack_of_unsent**: an ACK whose largest acknowledged number exceeds the largest packet number sent in
+    that space is answered with PROTOCOL_VIOLATION; nothing changes and no callback is made. -/
+theorem ack_of_unsent (s : State) (env : Env) (ranges : List Range) (lvl : Level) (now : Time) (sp : Space) (top : Range)
+    (hg : s.getSpace lvl = some sp) (hh : ranges.head? = some top) (hgt : top.2 > sp.largestSent) :
+    s.receivedAck env ranges lvl now = (s, { res := .err .ackUnsent }) := by
+  have hl : ∃ bot, ranges.getLast? = some bot := by
+    cases ranges with
+    | nil => simp at hh
+    | cons a as => exact ⟨(a :: as).getLast (by simp), List.getLast?_eq_some_getLast (by simp)⟩
+  obtain ⟨bot, hl⟩ := hl
+  unfold State.receivedAck
+  simp only [hg, hh, hl, hgt, if_true]
+
+
+def Op.isRetry : Op → Bool
+  | .retry => true
+  | _ => false
+
+/-- does the ACK with these ranges (wire order) acknowledge packet number `p` -/
+def acks (ranges : List Range) (p : PN) : Bool :=
+  match ranges.head?, ranges.getLast? with
+  | some top, some bot => acksPacket ranges bot.1 top.2 p
+  | _, _ => false
+
+/-- **ack_of_skipped** (full statement): after any history without a Retry, an ACK in the application-data
+    space that covers *any* packet number that was deliberately skipped during that history (and stays
+    within the numbers sent) is answered with PROTOCOL_VIOLATION.
+    FALSE on the unchanged tree — see `ack_of_skipped_witness`; `ack_of_skipped_partial` is what holds. -/
+def ack_of_skipped : Prop :=
+  ∀ (pn : PN) (val client : Bool) (nts : PN) (ops : List (Op × StepEnv)) (env : Env) (now : Time) (ranges : List Range) (p : PN),
+    (ops.all fun x => !Op.isRetry x.1) = true →
+    ((State.new pn val client nts).run ops).res = .ok →
+    p ∈ ((State.new pn val client nts).run ops).skipped →
+    acks ranges p = true →
+    (∀ top, ranges.head? = some top → top.2 ≤ ((State.new pn val client nts).run ops).s.app.largestSent) →
+    (((State.new pn val client nts).run ops).s.receivedAck env ranges .oneRTT now).2.res = .err .ackSkipped
+
+/-- **ack_of_skipped_partial**: an ACK in the application-data space that covers one of the skipped packet
+    numbers the history still *remembers* (the last `maxSkippedPackets`) is answered with
+    PROTOCOL_VIOLATION and no callback is made; tracked frames and `bytesInFlight` are untouched. -/
+theorem ack_of_skipped_partial (s : State) (env : Env) (ranges : List Range) (now : Time) (p : PN)
+    (hb : s.ackedBuf = 0) (hp : p ∈ s.app.hist.skipped) (ha : acks ranges p = true)
+    (hle : ∀ top, ranges.head? = some top → top.2 ≤ s.app.largestSent) :
+    (s.receivedAck env ranges .oneRTT now).2.res = .err .ackSkipped ∧ (s.receivedAck env ranges .oneRTT now).2.evs = [] ∧
+    pending (s.receivedAck env ranges .oneRTT now).1 = pending s ∧
+    (s.receivedAck env ranges .oneRTT now).1.bytesInFlight = s.bytesInFlight := by
+  unfold acks at ha
+  cases hh : ranges.head? with
+  | none => simp [hh] at ha
+  | some top =>
+    cases hl : ranges.getLast? with
+    | none => simp [hh, hl] at ha
+    | some bot =>
+      simp only [hh, hl] at ha
+      have hle' := hle top hh
+      unfold State.receivedAck
+      simp only [State.getSpace, hh, hl]
+      rw [if_neg (by omega)]
+      obtain ⟨e1, e2, e3, e4, e5⟩ := completeValidation_spec s env .oneRTT now
+      generalize s.completeValidation env .oneRTT now = s1 at e1 e2 e3 e4 e5 ⊢
+      unfold State.ackCore
+      rw [if_neg (by omega)]
+      have hany : s.app.hist.skipped.any (acksPacket ranges bot.1 top.2) = true := List.any_eq_true.mpr ⟨p, hp, ha⟩
+      simp only [hany, and_self, if_true]
+      exact ⟨trivial, trivial, pending_eq e1 e2 e3, e4⟩
+
+/-- environment of the witness: RTT 100 ms, PTO 200 / 225 ms, the generator's first skip far away -/
+def wEnv : StepEnv := { env := { latestRTT := 100000000, smoothedRTT := 100000000, pto0 := 200000000, pto1 := 225000000 }, nts := 300 }
+
+set_option maxRecDepth 100000 in
+/-- the hypotheses of `ack_of_unsent` are satisfiable: a fresh client, one Initial packet sent (number 0),
+    an ACK for packet 5 -/
+example : ((State.new 0 false true 300).run [(.send .initial 1000 (-1) 100 false false [⟨1, true⟩] [], wEnv),
+    (.ack .initial 2000 [(5, 5)], wEnv)]).res = .err .ackUnsent := by decide
+
+/-- the witness history: handshake confirmed, one packet sent, then six PTOs each followed by a probe packet -/
+def wOps : List (Op × StepEnv) :=
+  [(.drop .initial 1000, wEnv), (.drop .handshake 1000, wEnv),
+   (.send .oneRTT 1000 (-1) 100 false false [⟨1, true⟩] [], wEnv),
+   (.timeout 2000, wEnv), (.send .oneRTT 2001 (-1) 100 false false [⟨2, true⟩] [], wEnv),
+   (.timeout 3000, wEnv), (.send .oneRTT 3001 (-1) 100 false false [⟨3, true⟩] [], wEnv),
+   (.timeout 4000, wEnv), (.send .oneRTT 4001 (-1) 100 false false [⟨4, true⟩] [], wEnv),
+   (.timeout 5000, wEnv), (.send .oneRTT 5001 (-1) 100 false false [⟨5, true⟩] [], wEnv),
+   (.timeout 6000, wEnv), (.send .oneRTT 6001 (-1) 100 false false [⟨6, true⟩] [], wEnv),
+   (.timeout 7000, wEnv), (.send .oneRTT 7001 (-1) 100 false false [⟨7, true⟩] [], wEnv)]
+
+set_option maxRecDepth 100000 in
+/-- the six PTOs skipped 1, 3, 5, 7, 9, 11; only the last four are remembered -/
+theorem witness_skipped : ((State.new 0 false true 300).run wOps).res = .ok ∧
+    ((State.new 0 false true 300).run wOps).skipped = [1, 3, 5, 7, 9, 11] ∧
+    ((State.new 0 false true 300).run wOps).s.app.hist.skipped = [5, 7, 9, 11] ∧
+    ((State.new 0 false true 300).run wOps).s.app.largestSent = 12 := by decide
+
+set_option maxRecDepth 100000 in
+/-- … and an ACK for packets 0–1 (1 was skipped) is processed normally -/
+theorem witness_ack : (((State.new 0 false true 300).run wOps).s.receivedAck wEnv.env [(0, 1)] .oneRTT 8000).2.res = .ok := by decide
+
+/-- **ack_of_skipped_witness**: the full statement is false on the unchanged tree (known finding
+    `ack-of-old-skipped-pn`) -/
+theorem ack_of_skipped_witness : ¬ ack_of_skipped := by
+  intro h
+  have := h 0 false true 300 wOps wEnv.env 8000 [(0, 1)] 1 (by decide) witness_skipped.1
+    (by rw [witness_skipped.2.1]; decide) (by decide) (by intro top ht; simp at ht; subst ht; rw [witness_skipped.2.2.2]; decide)
+  rw [witness_ack] at this
+  exact absurd this (by decide)
+
+
+/-! ### the state of the handler between operations -/
+
+/-- everything the theorems below need about a state reached by a history: the accounting invariant, and
+    `h.ackedPackets` is empty (it is only left non-empty by an aborted `ReceivedAck`) -/
+def Reached (s : State) : Prop := FInv s ∧ s.ackedBuf = 0
+
+theorem reached_new (pn : PN) (val client : Bool) (nts : PN) : Reached (State.new pn val client nts) :=
+  ⟨new_FInv pn val client nts, rfl⟩
+
+theorem reached_run (ops : List (Op × StepEnv)) : ∀ (s : State), Reached s → ValidRun s ops → (s.run ops).res = .ok →
+    Reached (s.run ops).s := by
+  induction ops with
+  | nil => intro s r _ _; exact r
+  | cons x xs ih =>
+    intro s r hv hok
+    obtain ⟨op, e⟩ := x
+    obtain ⟨v1, v2⟩ := hv
+    simp only [State.run] at hok ⊢
+    cases hr : (s.step op e).2.res with
+    | ok =>
+      simp only [hr] at hok ⊢
+      exact ih _ ⟨(step_flight r.1 v1).1 hr, by rw [step_ackedBuf hr]; exact r.2⟩ (v2 hr) hok
+    | err c => simp [hr] at hok
+    | panic c => simp [hr] at hok
+
+/-- **acked_in_order_once**: in every reached state and for every ACK frame with at least one range,
+    `detectAndRemoveAckedPackets` collects strictly ascending packet numbers, each of them tracked and covered
+    by a range of the ACK, never takes the "BUG: ackhandler would have acked wrong packet" branch, and its
+    removal loop reports exactly the collected numbers, each once (no "packet not found", no nil entry). -/
+theorem acked_in_order_once (s : State) (hr : Reached s) (lvl : Level) (sp : Space) (hg : s.getSpace lvl = some sp)
+    (ranges : List Range) (top bot : Range) (hh : ranges.head? = some top) (hl : ranges.getLast? = some bot) :
+    ∃ probes stash acc,
+      collect (decide (ranges.length > 1)) bot.1 top.2 sp.hist.first sp.hist.packets ranges.reverse sp.hist.probes [] [] =
+        .done probes stash acc ∧
+      List.Pairwise (· < ·) acc ∧
+      (∀ q ∈ acc, (∃ p, sp.hist.lookup q = some p) ∧ ∃ r ∈ ranges, r.1 ≤ q ∧ q ≤ r.2) ∧
+      (ackedLoop lvl acc { sp.hist with probes := probes } stash [] []).2.2.2.2 = .ok ∧
+      (ackedLoop lvl acc { sp.hist with probes := probes } stash [] []).2.2.2.1.map Prod.fst = acc :=
+  detectAndRemove_spec sp.hist (FOK_getSpace hr.1.1 hg) ranges top bot lvl hh hl
+
+/-- … consequently `ReceivedAck` in a reached state ends in exactly one of: success, the two
+    PROTOCOL_VIOLATION errors, or a nil/empty-frame panic caused by the caller (dropped space, no ranges) -/
+theorem ack_outcomes (s : State) (hr : Reached s) (env : Env) (ranges : List Range) (lvl : Level) (now : Time) :
+    (s.receivedAck env ranges lvl now).2.res = .ok ∨ (s.receivedAck env ranges lvl now).2.res = .err .ackUnsent ∨
+    (s.receivedAck env ranges lvl now).2.res = .err .ackSkipped ∨ (s.receivedAck env ranges lvl now).2.res = .panic .nilSpace ∨
+    (s.receivedAck env ranges lvl now).2.res = .panic .emptyAck :=
+  receivedAck_outcomes hr.1 hr.2
 
 end Uquic.Props.C06
